@@ -116,6 +116,24 @@ func schemaCell(tp *kernel.Tape, proto int, spec cqlspec.ColSpec, row int) cqlsp
 		}
 		return []string{"x", "", "name" + string(rune('a'+row))}[tp.Next(3)]
 	}
+	if spec.Type.ID == cqlspec.TVarchar && (strings.Contains(spec.Name, "type") || strings.Contains(spec.Name, "validator") || spec.Name == "comparator") && tp.Chance(1, 150) {
+		// a type description nested as deeply as a frame has room for
+		n := []int{300, 20000, 3000000}[tp.Next(3)]
+		open, close, leaf := "list<", ">", "int"
+		switch tp.Next(4) {
+		case 1:
+			open = "frozen<map<int, "
+			close = ">>"
+		case 2:
+			open, close, leaf = "org.apache.cassandra.db.marshal.ListType(", ")", "org.apache.cassandra.db.marshal.Int32Type"
+			if n > 1000000 {
+				n = 1000000
+			}
+		case 3:
+			open, close, leaf = "a(", ")", "b"
+		}
+		return cqlspec.Cell{Bytes: cqlspec.EncText(strings.Repeat(open, n) + leaf + strings.Repeat(close, n))}
+	}
 	switch spec.Type.ID {
 	case cqlspec.TBoolean:
 		return cqlspec.Cell{Bytes: cqlspec.EncBool(tp.Next(2) == 1)}
